@@ -34,11 +34,20 @@ if SCRATCH:
             print(sid, "PATCH DOES NOT APPLY", a.stderr[-200:], flush=True)
             continue
         caught = []
+        out = {}
         for cid in EXTRA.get(pid, [pid]):
             r = sh(f"/venv/bin/python harness/run_check.py {cid} --tier quick", cwd=VERIF, env=ENV)
+            lines = [l[:300] for l in r.stdout.splitlines() if re.match(r"VIOLATION|KNOWN-FINDING|\[C", l)]
+            out[cid] = {"exit": r.returncode, "lines": lines[:6]}
             if r.returncode == 1 and "VIOLATION" in r.stdout:
                 caught.append(cid)
                 break
+        if os.environ.get("REDETECT_SCRATCH_WRITE") == "1":
+            m = json.loads((d / "meta.json").read_text())
+            m["checks_run"] = out
+            m["detected_by"] = caught
+            m["applied_in"] = "scratch worktree of /repo HEAD (PEGEN_REPO), same checks"
+            (d / "meta.json").write_text(json.dumps(m, indent=1))
         print(sid, "detected by (scratch):", caught, flush=True)
     sh(f"git -C /repo worktree remove --force {WT}")
     sys.exit(0)
